@@ -45,6 +45,18 @@ CHECKS = {
   note="trusted: slot resolution (an unresolved indirect call that a rule needs is exit 2); the list of output slots "
        "in sa/effects.py",
   technique="static analysis: effect summaries + dominance/reachability (must-precede) rules on LLVM IR"),
+ "C06": dict(
+  text="Static confinement argument for rdsquashfs --unpack over the whole rdsquashfs link closure: discovery of all "
+       "file-system mutating call sites; K1 name gate (every mutating call and recursion of each tree walk dominated by "
+       "the accepting edge of is_filename_sane on that node); interprocedural backward provenance of every path "
+       "argument (source get_path -> sanitiser canonicalize_name -> sink, deferred file list included); constant "
+       "hardening flags (O_EXCL, no O_TRUNC, AT_SYMLINK_NOFOLLOW, lsetxattr, !S_ISLNK before fchmodat); ordering in "
+       "main (duplicate check and O_EXCL creation pass dominate re-opening passes; failed chdir never unpacks); "
+       "get_path refuses '/', '.', '..'. Decides the structural confinement argument on all paths; does not decide that "
+       "the sort finds every duplicate, nor races with other processes.",
+  note="trusted: the table of mutating primitives and their path-argument positions in sa/props/c06.py; libc semantics of "
+       "the flags",
+  technique="static analysis: dominance (must-pass-through) + interprocedural source/sanitiser/sink provenance on LLVM IR"),
 }
 
 NA_DEFAULT = "rules designed in DESIGN.md, not implemented yet (work in progress)"
